@@ -50,9 +50,15 @@ def r_polarity(repo, rep, R='R17.1'):
             raise AnalysisError('%s: the function building the per-word category mask was not found' % REL)
         b = cands[0]
     MASK = b.name
-    if len(b.args.args) < 2:
+    closure_len = None
+    if len(b.args.args) == 1 and not isinstance(getattr(b, '_parent', None), ast.Module):
+        # a closure of the filter function: the length is a once-bound local of its host
+        sizes = [c_.args[0].id for c_ in ast.walk(b) if isinstance(c_, ast.Call) and src(c_.func).split('.')[-1] in ('ones', 'zeros', 'full') and c_.args and isinstance(c_.args[0], ast.Name)]
+        if len(set(sizes)) == 1:
+            closure_len = sizes[0]
+    if len(b.args.args) < 2 and closure_len is None:
         raise AnalysisError('%s: %s has %d parameters' % (REL, b.name, len(b.args.args)))
-    idx, ln = [a.arg for a in b.args.args][:2]
+    idx, ln = ([a.arg for a in b.args.args][:2] if closure_len is None else (b.args.args[0].arg, closure_len))
     w = '%s:%s %s' % (REL, b.lineno, b.name)
     paths = SymExec(b).run()
     ok = len(paths) == 1
@@ -147,6 +153,10 @@ def r_polarity(repo, rep, R='R17.1'):
                       'the ids of the listed categories are filtered by `%s` before the mask is built: a listed category whose id does not pass (position 0 is falsy) '
                       'is flattened like an unlisted one' % (show(filt[0])[:80] if filt else ''))
             ln_t = dc[2][2][1] if len(dc[2][2]) > 1 else None
+            if ln_t is None and closure_len is not None:
+                binds = [a_ for a_ in ast.walk(f) if isinstance(a_, ast.Assign) and len(a_.targets) == 1 and isinstance(a_.targets[0], ast.Name) and a_.targets[0].id == closure_len]
+                if len(binds) == 1:
+                    ln_t = ('name', src(binds[0].value).replace(' ', ''))      # (shown as written)
             rep.check(ln_t is not None and 'shape' in show(ln_t) and show(ln_t).endswith('[1]'), 'R17.2', wf, 'filters:mask-length',
                       'the mask has one entry per tag column', 'mask length is %s' % (show(ln_t) if ln_t else None))
     # every sentence of the batch is gone through: no path through the sentence loop leaves before the token loop
@@ -155,6 +165,14 @@ def r_polarity(repo, rep, R='R17.1'):
     inner_l = [l for l in fors if any(sn in list(ast.walk(l)) for sn in store_nodes)]
     inner_l = [l for l in inner_l if not any(l2 is not l and l2 in list(ast.walk(l)) and l2 in inner_l for l2 in fors)]
     outer_l = [l for l in fors if inner_l and l is not inner_l[0] and inner_l[0] in list(ast.walk(l))]
+    if inner_l:
+        # every token of the sentence is looked at: nothing leaves the token loop early (a `break` on the first word that is not in the
+        # dictionary leaves the dictionary words after it unrestricted)
+        leaves_ = [x for b_ in inner_l[0].body for x in ast.walk(b_) if isinstance(x, (ast.Break, ast.Return))]
+        rep.check(not leaves_, 'R17.2', '%s:%s apply_category_filters' % (REL, leaves_[0].lineno if leaves_ else inner_l[0].lineno), 'filters:every-token',
+                  'the loop over the tokens of a sentence runs to its end',
+                  'the loop over the tokens is left by `%s` at line %s: the words after that point keep all their scores although the dictionary lists them'
+                  % (src(leaves_[0])[:30] if leaves_ else '', leaves_[0].lineno if leaves_ else 0))
     if inner_l and outer_l:
         o_, i_ = outer_l[0], inner_l[0]
         skipping = []
